@@ -43,6 +43,14 @@ CHECKS["C18"] = (
     "DESIGN.md section 2 / C18",
 )
 
+CHECKS["C15"] = (
+    "fault enumeration of the formatter child process x size classes x settings, plus proptest sequences of faults over consecutive write() calls; token-sequence oracle",
+    "fault_enumeration",
+    "A scripted stand-in formatter reproduces every listed failure (absent/directory/non-executable/empty file, exit codes after nothing/half/all output, four signals, invalid UTF-8, closed or never-read stdin with and without flooding stdout, slow reader, output before input, exit 3 with complete output) on tiny, ~200 KB and >= 4 MB bindings; Bindings::write must return Ok in a watched worker and the text must carry the header comment once, the raw lines once and in order, and tokenise (modulo trailing commas and literal spelling) to the unformatted token sequence; output of a failed formatter must not be used and output of a succeeding one must be. The three real formatters are compared the same way. The fault list is finite and enumerated completely.",
+    "The child is a harness binary (fakefmt), not rustfmt; a hang is bounded by a watchdog and reported as inconclusive.",
+    "DESIGN.md section 2 / C15",
+)
+
 NOT_YET = {}
 
 def main():
